@@ -92,7 +92,7 @@ func VMRealRun(c *Compiled, inputs map[string]tengo.Object, maxAllocs int64, ngl
 	steps := 0
 	counted := 0
 	var lastAllocs int64
-	out := RunBytecode(c, RunOpts{MaxAllocs: maxAllocs, Inputs: inputs, Timeout: timeout,
+	out := RunBytecode(c, RunOpts{MaxAllocs: maxAllocs, ZeroAllocs: true, Inputs: inputs, Timeout: timeout,
 		Probe: func(v *tengo.VM, fn *tengo.CompiledFunction, ip, sp, bp, fi int, allocs int64) {
 			idx := -1
 			if len(fn.Instructions) > 0 {
@@ -155,7 +155,14 @@ func VMCompare(d *Driver, c *Compiled, mkInputs func() map[string]tengo.Object, 
 	cls := strings.Fields(model)[0]
 	switch cls {
 	case "unsupported", "excluded", "fuel", "model-timeout":
-		return "skip:" + cls, model, "", nil
+		why := ""
+		if f := strings.Fields(model); len(f) > 1 {
+			why = ":" + f[1]
+			if len(why) > 48 {
+				why = why[:48]
+			}
+		}
+		return "skip:" + cls + why, model, "", nil
 	}
 	impl, out := VMRealRun(c, mkInputs(), maxAllocs, ng, keep, 5*time.Second)
 	if out.TimedOut {
@@ -173,4 +180,53 @@ func VMCompare(d *Driver, c *Compiled, mkInputs func() map[string]tengo.Object, 
 		return "agree", model, impl, nil
 	}
 	return "differ", model, impl, nil
+}
+
+// VMDiff shows a around the first token where a and b differ.
+func VMDiff(a, b string) string {
+	af, bf := strings.Fields(a), strings.Fields(b)
+	i := 0
+	for i < len(af) && i < len(bf) && af[i] == bf[i] {
+		i++
+	}
+	lo := i - 6
+	if lo < 0 {
+		lo = 0
+	}
+	hi := i + 12
+	if hi > len(af) {
+		hi = len(af)
+	}
+	head := ""
+	if len(af) > 0 {
+		head = af[0]
+	}
+	return fmt.Sprintf("%s … [token %d] %s", head, i, strings.Join(af[lo:hi], " "))
+}
+
+// VMStream is the `vm` correspondence stream shared by the harnesses: compiled code is run on the real VM and on
+// the Lean VM model (Tengo.Model.VM) under each budget and compared in lock step (every dispatched instruction:
+// function, ip, sp, bp, frame index, allocation counter; outcome, error text, every global slot).
+func VMStream(res *Result, d *Driver, c *Compiled, key string, mk func() map[string]tengo.Object, budgets []int64, input func(budget int64) interface{}) error {
+	if d == nil || c == nil || c.BC == nil {
+		return nil
+	}
+	for _, b := range budgets {
+		st, model, impl, err := VMCompare(d, c, mk, b)
+		if err != nil {
+			return err
+		}
+		res.ModelLines++
+		res.Dist("vm:" + st)
+		if b >= 0 {
+			res.Dist("vm-budget:" + strings.Fields(impl + " -")[0])
+		}
+		switch st {
+		case "agree":
+			res.Count("vm", fmt.Sprintf("%d|%s", b, key), len(c.BC.MainFunction.Instructions) > 40)
+		case "differ":
+			res.Disagree(Disagreement{Stream: "vm", Input: input(b), Model: VMDiff(model, impl), Impl: VMDiff(impl, model)})
+		}
+	}
+	return nil
 }
